@@ -510,6 +510,26 @@ def obs(h):
     return nodes, links, h.root.idx
 
 
+def port_links(h):
+    """The links as the per-port queries report them (linked_ports of every out port incl. the order port)."""
+    from hugr.hugr.node_port import OutPort
+
+    c = Counter()
+    for n in h:
+        for off in range(-1, h.num_out_ports(n)):
+            for p in h.linked_ports(OutPort(n, off)):
+                c[(n.idx, off, p.node.idx, p.offset)] += 1
+    return c
+
+
+def rename_links(links, nodes):
+    mp = {old: new for new, old in enumerate(sorted(nodes))}
+    l2 = Counter()
+    for (s, so, d, do), c in links.items():
+        l2[(mp[s], so, mp[d], do)] += c
+    return l2
+
+
 def rename_obs(o):
     """Order-preserving compaction of live indices (the only licence of C02)."""
     nodes, links, root = o
@@ -623,6 +643,13 @@ def apply_valid_mutation(h, step, flags: set):
             n = cands[step[1] % len(cands)]
             h.delete_node(n)
             flags.add("delete-node")
+            if step[1] % 2:
+                # a caller holding a stale handle deletes the node again: refused (KeyError), nothing changes
+                try:
+                    h.delete_node(n)
+                except KeyError:
+                    pass
+                flags.add("deleted-twice")
     else:
         raise InvalidCase(kind)
 
